@@ -107,7 +107,7 @@ def _restore_entity(population, directory):
 
     flattened_roles = population.entity.flattened_roles
     if len(flattened_roles) == 0:
-        population.members_role = numpy.int16(0)
+        population.members_role = None
     else:
         population.members_role = numpy.select(
             [encoded_roles == role.key for role in flattened_roles],
